@@ -51,7 +51,7 @@ def _dom_paths(tier, seed):
     import esutil.recfile as recfile
     scratch = os.environ.get("ESVC_SCRATCH", "/var/tmp")
     delims = [None, ",", ":", "\t", " "]
-    sizes = (1, 4) if tier == "quick" else (1, 2, 5, 7)
+    sizes = (1, 4, 6) if tier == "quick" else (1, 2, 3, 5, 7)
     names = ["a", "b", "c", "d"]
     for di, delim in enumerate(delims):
         for n in sizes:
@@ -71,7 +71,7 @@ def _dom_paths(tier, seed):
             yield case(lambda: sfile.read(fname), full, "sfile.read")
             # slices: whole rows, one column, column list
             bounds = [None] + list(range(-n - 2, n + 3))
-            steps = (None, 1, 2, 3) if tier != "quick" or n <= 4 else (None, 2)
+            steps = (None, 1, 2, 3) if tier != "quick" or n <= 4 else (None, 3)
             for a in bounds:
                 for b in bounds:
                     for c in steps:
@@ -91,7 +91,7 @@ def _dom_paths(tier, seed):
             # row lists with repeats, any order
             for ln in (1, 2, 3):
                 for t in itertools.product(range(n), repeat=ln):
-                    if tier == "quick" and ln == 3 and (sum(t) % 3):
+                    if tier == "quick" and ln == 3 and (sum(t) % 3) and n < 6:
                         continue
                     exp = full[np.unique(np.array(t))]
                     yield case(lambda t=t: sf.read(rows=list(t)), exp, "read(rows=%r)" % (t,))
